@@ -26,7 +26,7 @@ func init() {
 	register(&Rule{ID: "LIB-math", Props: []string{"C13"}, Min: 4,
 		Doc: "S: library special cases that differ from ES5 §15.8.2 are guarded: Math.pow tests |x| == 1 with infinite y (math.Pow gives 1, ES5 NaN); Math.max/min test NaN before math.Max/Min (which let an infinity win over NaN); Math.round is not built on math.Round (half away from zero) ; isNaN/isFinite apply ToNumber to their argument",
 		Run: ruleLibMath})
-	register(&Rule{ID: "LIB-parse", Props: []string{"C06", "C05"}, Min: 3,
+	register(&Rule{ID: "LIB-parse", Props: []string{"C06", "C05", "C13"}, Min: 3,
 		Doc: "S: strconv.ParseFloat / ParseInt accept more than the ES5 numeric grammars (inf, infinity, nan, hex floats, digit separators, 0b/0o prefixes); every call on script text must be dominated by a grammar guard (a regexp match or being fed by the ES5 lexer), and a ParseFloat range error (value rounds to ±Inf) must not be treated as a syntax failure",
 		Run: ruleLibParse})
 }
@@ -473,9 +473,12 @@ func ruleLibMath(c *Ctx, r *R) {
 		}
 		calls := callsLib(fn, "math", lib)
 		if len(calls) == 0 {
-			r.ok(name+":no-lib", c.Pos(fn.Pos()), "not built on math."+lib)
+			// a hand-written comparison: Go's < and > treat +0 and -0 as equal, so ordering the zeros needs the sign bit
+			zero := len(callsLib(fn, "math", "Signbit"))+len(callsLib(fn, "math", "Copysign")) > 0
+			r.check(zero, name+":signed-zero", c.Pos(fn.Pos()), "not built on math."+lib+", orders the zeros with the sign bit", fmt.Sprintf("Math.%s is built neither on math.%s nor on a sign-bit test: Go's comparison operators cannot tell +0 from -0, but ES5 §15.8.2.11-12 orders them (+0 is larger than -0), so Math.%s(-0, 0) has the wrong sign", name, lib, name))
 			continue
 		}
+		r.ok(name+":signed-zero", c.Pos(instrPos(calls[0])), "math."+lib+" orders +0 above -0")
 		for _, mc := range calls {
 			// both operands must have passed an IsNaN test whose true side returns
 			okAll := true
@@ -604,7 +607,7 @@ func ruleLibParse(c *Ctx, r *R) {
 				r.ok("reviewed:"+key, site, why)
 			} else {
 				okGuard, leak := grammarGuarded(c, fn, pc)
-				r.check(okGuard, key+":grammar", site, "dominated by a regexp guard that rejects every Go-only numeric form", fmt.Sprintf("strconv.%s accepts more than the ES5 grammar; in %s no dominating regexp guard rejects %s, so e.g. that text converts to a number although ES5 says NaN", name, ssaFuncName(fn), leak))
+				r.check(okGuard, key+":grammar", site, "dominated by a regexp guard that rejects every Go-only numeric form", fmt.Sprintf("strconv.%s accepts more than the ES5 grammar; in %s the dominating regexp guard must reject every Go-only form and accept every ES5 form: it lets through / wrongly rejects %s", name, ssaFuncName(fn), leak))
 			}
 			_ = regexpGuard
 			if name == "ParseFloat" {
@@ -638,6 +641,9 @@ var _ = types.Typ
 
 // Go-only numeric forms: accepted by strconv.ParseFloat / ParseInt(base 0) but not by ES5 StringNumericLiteral (§9.3.1).
 var goOnlyNumericForms = []string{"inf", "Inf", "+inf", "-Inf", "infinity", "INFINITY", "nan", "NaN", "0x1p4", "0x1.8p1", "1_0", "0x1_0", "0b11", "0o17", "0B1", "0O7", "+0x10", "-0x10", "1e", "0x"}
+
+// ES5 §9.3.1 StringNumericLiteral forms (after white space is stripped): every one must convert to a number.
+var es5NumericForms = []string{"0", "7", "007", "5.", ".5", "5.5", "5e3", "5E3", "5.e3", "5.5e3", ".5e3", ".5e-3", "5e+3", "+1", "-1", "+.5", "-5.", "Infinity", "+Infinity", "-Infinity", "0x1F", "0XaB", "0x0"}
 
 // grammarGuarded: some If on the result of <regexp global>.MatchString(input) dominates the parse call such that the
 // call is reachable only when the regexp matched, and that regexp (a constant pattern) rejects every Go-only form.
@@ -683,6 +689,14 @@ func grammarGuarded(c *Ctx, fn *ssa.Function, pc *ssa.Call) (bool, string) {
 			}
 		}
 		if leak == "" {
+			// a full-match pattern (^...$) is the complete StringNumericLiteral grammar: it must also accept every ES5 form
+			if strings.HasPrefix(pat, "^") && strings.HasSuffix(pat, "$") {
+				for _, probe := range es5NumericForms {
+					if !re.MatchString(probe) {
+						return false, fmt.Sprintf("nothing Go-only, but it rejects %q, which ES5 §9.3.1 StringNumericLiteral accepts (guard %s)", probe, pat)
+					}
+				}
+			}
 			return true, ""
 		}
 	}
